@@ -73,7 +73,10 @@ CFG = dict(
           "incl. renamed keys and \"-\"); the tag text, group path and Go name of every field are reported and split by the MODEL; every field x every combination of (cli, env, JSON) mentioning it x JSON carrier (file via -config, "
           "CFG_CONFIG_B64, both, none) with the other fields random; targeted shapes (env set but empty, cli/env text equal to the "
           "default's text while JSON differs, explicit empty cli value); JSON \"\" for string/[]byte and JSON null (= not mentioned; for []byte = nil); "
-          "-help in several spellings with ShowUsage() observed; seeded random cases; decoy CFG_CONFIG / CFG_HELP variables; "
+          "-help in several spellings with ShowUsage() observed; histories of 2-3 Parse calls on ONE FlagSet (a first call that fails after recording "
+          "mentions — undefined flag, missing argument, malformed token, missing -config file, unparsable text — or succeeds, then calls with their own "
+          "vector, environment and JSON carriers: each line is judged by the sources of THAT call; the model refuses later calls and leaves the fields alone); "
+          "seeded random cases; decoy CFG_CONFIG / CFG_HELP variables; "
           "STATS skipped = fields of Parses that failed on purpose (unparsable winning text, missing -config file): the property is conditional on success; "
           "each case is one NewFlagSet + Parse; non-trivial = distinct case lines"),
     trusted_base=[HARNESS_TB, EXTRACT_TB,
@@ -88,7 +91,8 @@ CFG["manifest"] = dict(
     text=("Proof: C09_priority — for every world, field list and argument vector, after a successful NewFlagSet+Parse of the model every "
           "flag holds the value of the highest-priority source mentioning it (cli text, else env text, else the JSON value of the file named "
           "by -config on the command line / else CFG_CONFIG_B64, else the tag default), texts going through the kind's Set with \"\" = zero "
-          "value; C09_sources_independent (oracles equal pointwise), C09_winning_text_unparsable_fails, C09_never_panics, C09_empty_is_zero, "
+          "value; C09_parse_once / C09_history (one FlagSet, several Parse calls: only the first can succeed, later ones are refused and change nothing), "
+          "C09_sources_independent (oracles equal pointwise), C09_winning_text_unparsable_fails, C09_never_panics, C09_empty_is_zero, "
           "C09_tag_syntax / C09_struct_recursion (byte-level model of parseStructFieldTag and the group recursion), "
           "C09_table_wf (NewFlagSet's table is well-formed for C10), and the env-name laws "
           "C09_env_name_charset / _shape / C09_underscore_idempotent for the byte-for-byte model of strutil.Underscore. "
